@@ -40,7 +40,9 @@ def rsa_ok(t):
     if not (1 < d < n) or math.gcd(n, d) != 1:
         return False
     if len(t) == 3:
-        return True          # factors are recovered from d by the library
+        # factors are recovered from d by the library: the modulus must be a product of two primes
+        fs = [f for f in range(2, n) if n % f == 0 and small_is_prime(f)]
+        return len(fs) == 2 and fs[0] * fs[1] == n
     p, q = t[3], t[4]
     if p * q != n or not small_is_prime(p) or not small_is_prime(q):
         return False
@@ -97,6 +99,8 @@ def rows():
     cases = [
         ("valid (n,e,d,p,q,u)", V), ("valid (n,e)", V[:2]), ("valid (n,e,d)", V[:3]),
         ("valid (n,e,d,p,q)", V[:5]),
+        ("(n,e,d) with n = 5*5*13: factor recovery splits it into 13 * 25", (325, 7, 103)),
+        ("(n,e,d) with n = 5*5*37", (925, 7, 103)),
         ("e = 1", (3233, 1)), ("e = n", (3233, 3233)), ("e = n+2", (3233, 3235)),
         ("e = 0", (3233, 0)), ("gcd(n,e) = 61", (3233, 61)), ("n even", (3234, 17)),
         ("d = 1", (3233, 17, 1)), ("d = n", (3233, 17, 3233)), ("d = n + 413", (3233, 17, 3646)),
